@@ -8,7 +8,7 @@ while true; do
   if [ -z "$line" ]; then sleep 20; continue; fi
   sed -i '1d' $Q
   set -- $line
-  if [ "$1" = seed ]; then /verif/tools/run_seed.sh $2 $3 $4 >> $LOG 2>&1
-  elif [ "$1" = verify ]; then cd /verif; VERIF_SEED=${3:-1} ./check $2 > /verif/build/verify_$2.log 2>&1; echo "VERIFY $2 seed=${3:-1} rc=$? $(grep -E 'VIOLATION|KNOWN' build/verify_$2.log | cut -c1-120 | tr '\n' '|') $(grep -o 'wall=[0-9.]*' build/verify_$2.log | tail -1)" >> $LOG
+  if [ "$1" = seed ]; then flock -x /verif/build/repo.lock /verif/tools/run_seed.sh $2 $3 $4 >> $LOG 2>&1
+  elif [ "$1" = verify ]; then cd /verif; VERIF_SEED=${3:-1} flock -s /verif/build/repo.lock ./check $2 > /verif/build/verify_$2.log 2>&1; echo "VERIFY $2 seed=${3:-1} rc=$? $(grep -E 'VIOLATION|KNOWN' build/verify_$2.log | cut -c1-120 | tr '\n' '|') $(grep -o 'wall=[0-9.]*' build/verify_$2.log | tail -1)" >> $LOG
   fi
 done
